@@ -40,8 +40,8 @@ pub fn total(prop: &str, tier: u8) -> usize {
         ("C15", _) => 15_000,
         ("C19", 0) => 300,
         ("C19", _) => 8_000,
-        ("C13", 0) => 48,
-        ("C13", _) => 700,
+        ("C13", 0) => 72,
+        ("C13", _) => 900,
         _ => 0,
     }
 }
@@ -56,10 +56,107 @@ fn add_path_viol(rec: &mut Rec, rep: &pathmon::PathReport, ctx: &str) {
     }
 }
 
+/// programs over the blocking primitives (Notify waits give Spurious branches, locks give disabled threads)
+fn sync_prog_for(seed: u64, idx: usize) -> crate::sync::SProg {
+    crate::fam_sync::prog_at(if idx % 2 == 0 { "C08" } else { "C01" }, 0, seed ^ 0x5A, 30_000_000 + idx)
+}
+
+fn c14_sync(rec: &mut Rec, tier: u8, seed: u64, idx: usize) {
+    let p = sync_prog_for(seed, idx);
+    rec.hash = p.hash();
+    rec.prog = p.s();
+    rec.extra = json!({"family": "path"});
+    let r = crate::sync::run_loom(&p, &crate::sync::SCfg { iter_cap: if tier == 0 { 20_000 } else { 100_000 }, max_branches: 5000, keep_paths: true, ..Default::default() });
+    rec.runs = 1;
+    rec.iters = r.iters as u64;
+    rec.events = r.events as u64;
+    rec.entries = r.paths.iter().map(|x| x.len() as u64).sum();
+    if r.panic.is_some() {
+        // a failing model stops in the middle of its exploration: nothing to say about completeness of the path tree
+        let rep = pathmon::check(&r.paths, None, false);
+        add_path_viol(rec, &rep, "(failing model) ");
+        return;
+    }
+    if r.hook_calls != r.iters || r.paths.len() != r.iters {
+        rec.v("path_count", "", format!("{} iterations but {} decision paths", r.iters, r.paths.len()));
+    }
+    let rep = pathmon::check(&r.paths, None, true);
+    add_path_viol(rec, &rep, "");
+    rec.nontrivial = r.iters >= 2;
+    if rec.idx % 499 == 1 {
+        rec.extra = json!({"family": "path", "iterations": r.iters, "decision_entries": rep.entries, "max_path_len": rep.max_len, "kinds_sched_load_spur": rep.kinds});
+    }
+    if !rec.viol.is_empty() {
+        rec.prog_json = serde_json::to_value(&p).unwrap();
+    }
+}
+
+/// C13 on a blocking program: determinism and clean stop / resume at every k (Spurious branches, disabled threads)
+fn c13_sync(rec: &mut Rec, tier: u8, seed: u64, idx: usize) {
+    use crate::sync::{run_loom, SCfg};
+    let p = sync_prog_for(seed, idx);
+    rec.hash = p.hash();
+    rec.prog = p.s();
+    rec.extra = json!({"family": "path"});
+    let cfg = SCfg { iter_cap: 20_000, max_branches: 5000, keep_paths: true, ..Default::default() };
+    let full = run_loom(&p, &cfg);
+    rec.runs = 1;
+    rec.iters = full.iters as u64;
+    let n = full.iters;
+    if full.panic.is_some() || n < 3 || n > if tier == 0 { 80 } else { 300 } {
+        return;
+    }
+    let fd = digest_paths(&full.paths);
+    let again = run_loom(&p, &cfg);
+    rec.runs += 1;
+    if again.seq != full.seq || digest_paths(&again.paths) != fd {
+        rec.v("nondeterministic", "", "two runs in one process visit different executions".to_string());
+    }
+    let dir = verif_root().join("work");
+    let _ = std::fs::create_dir_all(&dir);
+    let file = dir.join(format!("ckpt-sync-{}-{}-{}.json", std::process::id(), seed, idx)).to_string_lossy().to_string();
+    let mut stops = 0u64;
+    'outer: for interval in [1usize, 2, 3] {
+        for k in 1..=n {
+            let _ = std::fs::remove_file(&file);
+            let first = run_loom(&p, &SCfg { checkpoint_file: Some(file.clone()), checkpoint_interval: Some(interval), max_permutations: Some(k), ..cfg.clone() });
+            let stop = ((k + interval - 1) / interval) * interval;
+            let expect_first = (stop - 1).min(n);
+            let exists = std::path::Path::new(&file).exists();
+            let rest = run_loom(&p, &SCfg { checkpoint_file: Some(file.clone()), checkpoint_interval: Some(interval), ..cfg.clone() });
+            rec.runs += 2;
+            rec.iters += (first.iters + rest.iters) as u64;
+            stops += 1;
+            let last_boundary = if stop <= n { stop } else { (n / interval) * interval };
+            let from = if exists && last_boundary >= 1 { last_boundary - 1 } else { 0 };
+            let ok_first = first.panic.is_none() && first.seq.len() == expect_first && first.seq[..] == full.seq[..expect_first];
+            let ok_rest = rest.panic.is_none() && rest.seq[..] == full.seq[from..] && digest_paths(&rest.paths)[..] == fd[from..];
+            if !ok_first || !ok_rest {
+                rec.v("checkpoint_resume", "", format!("interval={} stop request k={} (of {}): stopped run executed {} iterations (expected {}), resumed run {} iterations (expected {} = suffix from iteration {}); resumed panic {:?}", interval, k, n, first.seq.len(), expect_first, rest.seq.len(), n - from, from + 1, rest.panic.as_ref().map(|m| m.lines().next().unwrap_or("").to_string())));
+                break 'outer;
+            }
+        }
+    }
+    let _ = std::fs::remove_file(&file);
+    rec.nontrivial = true;
+    rec.extra = json!({"family": "path", "iterations": n, "stop_resume_pairs": stops, "spurious_branches": full.paths.iter().flatten().filter(|b| matches!(b, loom::verif::Branch::Spurious { .. })).count()});
+    if !rec.viol.is_empty() {
+        rec.prog_json = serde_json::to_value(&p).unwrap();
+    }
+}
+
 pub fn work(prop: &str, tier: u8, seed: u64, idx: usize) -> Rec {
     let mut rec = Rec::new(idx);
     if prop == "C13" && idx < 4 {
         c13_dtor(&mut rec, idx);
+        return rec;
+    }
+    if prop == "C13" && idx % 3 == 2 {
+        c13_sync(&mut rec, tier, seed, idx);
+        return rec;
+    }
+    if prop == "C14" && idx % 2 == 1 {
+        c14_sync(&mut rec, tier, seed, idx);
         return rec;
     }
     let p = prog_for(prop, tier, seed, idx);
